@@ -1,0 +1,8 @@
+//go:build !verif
+
+// Package vhook provides yield points for external verification harnesses.
+// Without the "verif" build tag every function is an empty, inlinable no-op.
+package vhook
+
+// Yield is a no-op unless built with the "verif" tag.
+func Yield(string) {}
